@@ -22,6 +22,10 @@ CHECKS = {
             "threshold and conservation monitors: allocation budgets swept 0..A+3 with A counted independently by the VM probe (instruction classification, not the VM's counter); reachable-value walk under small MaxStringLen/MaxBytesLen with boundary probes per producer; recursion probes through RunContext",
             "(a) For generated programs the unlimited run is observed by the probe, which counts tracked allocations by classifying completed instructions; every budget N = 0..A+3 and -1 is then run: below A the run must stop with ErrObjectAllocLimit having completed at most N allocations, from A on it must equal the unlimited run. (b) With small string/bytes maxima every core-language producer is driven across the boundary; over-long results must be refused with the limit sentinel, fitting ones produced, and after every run all values reachable from the globals are walked. (c) Recursion beyond the frame limit must end in ErrStackOverflow, beyond the operand stack in some error. Held on the cases listed in evidence.",
             "Trusted: the probe's instruction classification as the independent allocation count. Process-wide limits are changed only inside single-threaded workers."),
+    "C07": ("exploration",
+            "schedule exploration at logical instants: the VM probe cancels the context from inside the VM goroutine at the k-th dispatched instruction while build-tagged yield points perturb the caller side; online monitors on return value, instructions dispatched after the abort flag, goroutine dump, re-run result; all under the Go race detector",
+            "Script families (never-ending when limit = -1) are cancelled at instants 0 (already cancelled), 1, 2, inside, last instruction, after finish. The returned error must be ctx.Err() or, only if the script finished, its own result; at most one instruction may be dispatched once the abort flag is set; the flag must become visible within 5*10^7 instructions and 10 s; no goroutine with VM frames may survive; the same Compiled must then run a finite limit correctly. Direct VM reuse (Run, Abort, Run) is driven as well. The harness is built with -race (halt_on_error=1). Held on the (script, limit, instant) triples listed in evidence.",
+            "Bounded-progress restatement of 'promptly': measured in dispatched instructions after the flag is set. Go scheduler latency between cancel() and Abort() is outside the engine."),
     "C09": ("exploration",
             "history-over-one-object runtime monitor: shadow snapshot of the immutable value taken through Compiled.Get after its creation and after every operation of a random sequence, each operation being its own RunContext on the same Compiled",
             "Immutable values of four origins (immutable expression, freeze, module export, builtin-module table) built from fresh nested literals are subjected to random sequences of up to 12 operations on themselves and on everything derived from them; after every step the snapshot (whole tree for frozen values, immutable spine for shallow ones) must equal the first one. freeze is additionally checked for equality with its argument, no mutable container reachable from the result, and independence from later writes to the argument. Held on the sequences listed in evidence.",
